@@ -462,6 +462,87 @@ def offspace_block():
     yield M([ep("_rain_v_1", h(1), ("ARG0", ["e", 2]))], [T], ["e", 2], icons=[[["x", 78], "focus", ["x", 77]]])
 
 
+def chain_mrs(n, bodies="open"):
+    """n quantified nouns in a chain: verb(x1), noun_k sharing its label with a preposition that takes
+    x_k and x_(k+1), each noun quantified (RSTR qeq the noun's label).  3n nodes, 2n+1 scopes.
+    bodies: open / heq / h (the quantifiers form the chain q1 > q2 > ... > qn > verb) / mix.
+    Variables are numbered 1.. in order of first use; renumber with `chain_numberings`."""
+    c = itertools.count(1)
+    nv = lambda sort: [sort, next(c)]           # noqa: E731
+    top, lv, ev = ["h", 0], nv("h"), nv("e")
+    xs = [nv("x") for _ in range(n)]
+    rels = [{"pred": "_bark_v_1", "label": lv, "args": [["ARG0", ev], ["ARG1", xs[0]]]}]
+    hcons = [[top, "qeq", lv]]
+    nl = [nv("h") for _ in range(n)]
+    ql = [nv("h") for _ in range(n)]
+    for k in range(n):
+        rels.append({"pred": "_dog_n_1", "label": nl[k], "args": [["ARG0", xs[k]]]})
+        if k + 1 < n:
+            rels.append({"pred": "_of_p", "label": nl[k], "args": [["ARG0", nv("e")], ["ARG1", xs[k]], ["ARG2", xs[k + 1]]]})
+        hole, body = nv("h"), nv("h")
+        hcons.append([hole, "qeq", nl[k]])
+        kind = {"mix": ("open", "heq", "h")[k % 3]}.get(bodies, bodies)
+        tgt = ql[k + 1] if k + 1 < n else lv
+        if kind == "heq":
+            body = tgt
+        elif kind == "h":
+            hcons.append([body, "qeq", tgt])
+        rels.append({"pred": ("_the_q", "_every_q")[k % 2], "label": ql[k],
+                     "args": [["ARG0", xs[k]], ["RSTR", hole], ["BODY", body]]})
+    for e_ in rels:
+        e_.update(carg=None, lnk=None, surface=None, base=None)
+    return {"top": top, "index": ev, "rels": rels, "hcons": hcons, "icons": [], "vars": [[xs[0], [["PERS", "3"]]]]}
+
+
+def chain_numberings(m):
+    """(name, renumbered copy): the numbers from_dmrs / DMRS.scopes hand out are 0,1,2,... in allocation
+    order; the source uses numbers that cross 9->10 and 99->100 (digit counts differ, so lexicographic and
+    numeric order differ), do not start at 1, leave big gaps, run downwards, or repeat across sorts."""
+    vs = all_vars(m)
+
+    def ren(f, per_sort=False):
+        if per_sort:
+            cnt = {}
+            tab = {}
+            for v in vs:
+                cnt[v[0]] = cnt.get(v[0], 0) + 1
+                tab[canon(v)] = [v[0], f(cnt[v[0]] - 1)]
+        else:
+            tab = {canon(v): [v[0], f(i)] for i, v in enumerate(vs)}
+        return map_vars(m, lambda v: tab[canon(v)])
+    n = len(vs)
+    yield "from-0", m
+    yield "from-7", ren(lambda i: i + 7)
+    yield "from-95", ren(lambda i: i + 95)
+    yield "from-995", ren(lambda i: i + 995)
+    yield "downwards", ren(lambda i: n + 3 - i)
+    yield "sparse", ren(lambda i: (i * i * 37 + 5) if i % 3 else 10 ** (1 + i % 7) + i)
+    yield "even", ren(lambda i: 2 * i)
+    yield "per-sort-from-1", ren(lambda i: i + 1, per_sort=True)
+    yield "per-sort-from-9", ren(lambda i: i + 9, per_sort=True)
+    yield "labels-high", ren(lambda i: i + (1000 if vs[i][0] == "h" else 0))
+    yield "labels-low-others-high", ren(lambda i: i if vs[i][0] == "h" else i + 500)
+
+
+def large_block(rng):
+    """deterministic LARGE structures: chains of 10, 12 and 14 quantified nouns (30-42 nodes, 21-29 scopes:
+    DMRS.scopes labels h1..h42, so label numbers of one, two digits) under eleven numberings and four BODY
+    regimes; the predications in source order and once shuffled."""
+    for n in (10, 12, 14):
+        for bodies in ("open", "heq", "h", "mix"):
+            if n != 12 and bodies in ("heq", "h"):
+                continue
+            base = chain_mrs(n, bodies)
+            for name, m in chain_numberings(base):
+                if (n == 14 or bodies in ("heq", "h")) and name not in ("from-0", "from-95", "sparse",
+                                                                          "per-sort-from-9", "downwards"):
+                    continue
+                yield m
+            m = copy.deepcopy(base)
+            rng.shuffle(m["rels"])
+            yield renumber(rng, m)
+
+
 def body_kinds(mj):
     """per quantifier of an MRS JSON: 'open' / 'heq' (BODY is directly a label) / 'h' (BODY is a hole with a
     handle constraint onto a label) / 'dangling' / 'none'"""
@@ -1016,6 +1097,97 @@ def positional_failures(m, d1, m2):
     return fails
 
 
+def freshness_failures(d1, m2):
+    """The way back allocates names: one label per scope of the DMRS (EQ-connected component), one intrinsic
+    variable per non-quantifier node, one hole per H link and for the top, one open BODY hole per quantifier
+    without a BODY link.  By COUNTING only (no isomorphism, no comparison with the source, so a harmless
+    renumbering passes and a collision does not): these things must carry pairwise different names — no
+    handle is both a hole and a scope label, no two scopes / nodes / holes share a name — every hole is
+    used exactly once and constrained exactly once, every low end of a constraint is a label, and the
+    variable store lists exactly the names in use.  Judged on EVERY case whose way back returns."""
+    fails = []
+    nodes = list(d1.nodes)
+    e2 = list(m2.rels)
+    if len(nodes) != len(e2):
+        return fails
+    pos = {n.id: i for i, n in enumerate(nodes)}
+    if len(pos) != len(nodes) or any(l.start not in pos or l.end not in pos for l in d1.links):
+        return fails
+    parent = list(range(len(nodes)))
+
+    def find(a):
+        while parent[a] != a:
+            a = parent[a]
+        return a
+    for l in d1.links:
+        if l.post == "EQ":
+            parent[find(pos[l.start])] = find(pos[l.end])
+    quant = {pos[l.start] for l in d1.links if l.role == "RSTR"}
+    rstr_of = {}
+    for l in d1.links:
+        if l.role == "RSTR":
+            rstr_of.setdefault(pos[l.start], pos[l.end])
+    n_scopes = len({find(i) for i in range(len(nodes))})
+    bad = []
+    labels = [ep.label for ep in e2]
+    for i in range(len(e2)):
+        for j in range(i + 1, len(e2)):
+            if (labels[i] == labels[j]) != (find(i) == find(j)):
+                bad.append(["label", i, j, labels[i], labels[j]])
+    ivs = {i: e2[i].iv for i in range(len(e2)) if i not in quant}
+    seen = {}
+    for i, v in ivs.items():
+        if v is None or v in seen:
+            bad.append(["intrinsic-variable", seen.get(v), i, v])
+        seen[v] = i
+    for q, t in rstr_of.items():
+        if t not in quant and e2[q].args.get("ARG0") != ivs.get(t):
+            bad.append(["bound-variable", q, t, e2[q].args.get("ARG0"), ivs.get(t)])
+    his = [hc.hi for hc in m2.hcons]
+    uses = {}
+    for i, ep in enumerate(e2):
+        for r, v in ep.args.items():
+            if r not in ("ARG0", "CARG"):
+                uses.setdefault(v, []).append([i, r])
+    if m2.top is not None:
+        uses.setdefault(m2.top, []).append(["top"])
+    n_h = sum(1 for l in d1.links if l.post == "H") + (1 if d1.top is not None else 0)
+    if len(his) != n_h or len(set(his)) != len(his):
+        bad.append(["holes", len(his), n_h, sorted(h_ for h_ in set(his) if his.count(h_) > 1)])
+    for h_ in his:
+        if h_ in labels:
+            bad.append(["hole-is-a-label", h_])
+        if len(uses.get(h_, [])) != 1:
+            bad.append(["hole-not-used-once", h_, uses.get(h_)])
+        if variable.type(h_) != "h":
+            bad.append(["hole-sort", h_])
+    for hc in m2.hcons:
+        if hc.lo not in labels:
+            bad.append(["constraint-onto-no-label", hc.hi, hc.lo])
+    has_body = {pos[l.start] for l in d1.links if l.role == "BODY"}
+    opens = []
+    for q in sorted(quant):
+        if q not in has_body:
+            b = e2[q].args.get("BODY")
+            opens.append(b)
+            if b is None or b in labels or b in his or len(uses.get(b, [])) != 1 or variable.type(b) != "h":
+                bad.append(["open-body", q, b, uses.get(b)])
+    if len(set(opens)) != len(opens):
+        bad.append(["open-bodies-share-a-name", sorted(map(str, opens))])
+    things = len(set(labels)) + len(set(his)) + len(set(opens)) + len(set(ivs.values()))
+    names = set(labels) | set(his) | set(opens) | set(ivs.values())
+    if len(set(labels)) != n_scopes or len(names) != things:
+        bad.append(["names", len(names), things, n_scopes, len(set(labels))])
+    used = set(names) | {v for ep in e2 for r, v in ep.args.items() if r != "CARG"}
+    if set(m2.variables) != used:
+        bad.append(["variable-store", sorted(set(m2.variables) ^ used)])
+    if bad:
+        fails.append({"clause": "way back: the labels, intrinsic variables and holes from_dmrs allocates are not pairwise "
+                                "distinct (a fresh name collides with a scope label or another variable)",
+                      "detail": bad[:8]})
+    return fails
+
+
 def top_positions(m):
     """positions of the predications in the scope the top selects (through its constraint)"""
     if m.top is None:
@@ -1077,7 +1249,16 @@ class C04(Check):
             "label (BODY/HEQ) and through a qeq constraint (BODY/H), all combinations for two quantifiers (both scoped "
             "readings included), each also renumbered and shuffled; 40% of the quantified gen_wf cases get resolved "
             "bodies (a chain q1>q2>...>scope, or each body independently open/label/qeq to any label); counted as "
-            "inside:body-heq / body-h / fully-scoped and link:BODY/H, link:BODY/HEQ. ORACLE besides isomorphism: position by "
+            "inside:body-heq / body-h / fully-scoped and link:BODY/H, link:BODY/HEQ. (h) LARGE structures (72 cases): chains of 10, 12, 14 quantified "
+            "nouns (30-42 nodes, 21-29 scopes, so DMRS.scopes hands out h1..h42) under eleven numberings of the source "
+            "(from 0, from 7 and 95 and 995 crossing 9->10, 99->100, 999->1000, downwards, sparse with gaps up to 10^7, "
+            "even, per sort from 1 / from 9 so that x5 e5 h5 coexist, labels high / low) and four BODY regimes, plus "
+            "shuffled copies; on EVERY case whose way back returns (in or outside the space) the names from_dmrs "
+            "allocates are COUNTED: one label per EQ-component, one intrinsic variable per non-quantifier node, one "
+            "hole per H link and the top, one open BODY per quantifier without BODY link, all pairwise distinct, no "
+            "hole that is a label, every hole used once and constrained once, variable store = names in use "
+            "(freshness_failures; a harmless renumbering passes, a collision does not). "
+            "ORACLE besides isomorphism: position by "
             "position and argument by argument the link inventory must be COMPLETE (each expressible argument exactly "
             "one link, right post, into the selected scope) and each argument must come back in the same way "
             "(intrinsic variable of the same predication / direct label / hole with one qeq used once / open BODY "
@@ -1238,6 +1419,8 @@ class C04(Check):
             yield {"kind": "rt", "src": "body", "m": m}
         for m in offspace_block():
             yield {"kind": "rt", "src": "offspace", "m": m}
+        for m in large_block(rng):
+            yield {"kind": "rt", "src": "large", "m": m}
         # the same structures built with None where a component is empty (MRS.__init__ / EP.__init__ defaults)
         for m in curated()[:4] + list(offspace_block())[:2]:
             yield {"kind": "rt", "src": "ctor-none", "m": m, "ctor": "none"}
@@ -1552,6 +1735,10 @@ class C04(Check):
                     fail("HEQ link: the argument is not directly the target's label", key)
             else:
                 fail("link has an unknown post", key)
+
+        # ---- the names the way back allocates (every case, in or outside the space)
+        if "m2" in o:
+            fails.extend(freshness_failures(d1, o["m2"]))
 
         if not inside:
             return fails
